@@ -42,6 +42,7 @@ Proof.
 Qed.
 
 Section Answers.
+  Variable wo : wops.
   Variable R : Type.
   Variable plugins : list plugin.
   Variable search : json -> res R.
@@ -59,7 +60,8 @@ Section Answers.
   Hypothesis Hsink : forall j, exists j', sink j = Ok j' /\ jget j' "request" = jget j "request".
   Hypothesis Hpar : 1 <= par_run.
 
-  Notation run := (run R plugins search oplugins sink par_app par_run true).
+  Notation run := (run wo R plugins search oplugins sink par_app par_run true).
+  Notation weight_ok := (weight_ok wo).
   Notation run_single_query := (run_single_query R search oplugins).
 
   (* the answer to one processed query / to one query of the batch, in isolation *)
@@ -161,7 +163,7 @@ Section Answers.
     set (staged := map stage_pure queries).
     set (good := filter weight_ok (concat (lefts staged))).
     set (bad := filter (fun q => negb (weight_ok q)) (concat (lefts staged))).
-    destruct (load_balance_ok good par_run Hpar) as [bins [Hb [Hperm Hnil]]].
+    destruct (load_balance_ok wo good par_run Hpar) as [bins [Hb [Hperm Hnil]]].
     { apply Forall_forall. intros q Hq. apply filter_In in Hq. apply Hq. }
     rewrite Hb. cbn [bind].
     rewrite (seq_map_ok sink snk) by (intros j _; apply sink_snk). cbn [bind].
@@ -327,14 +329,14 @@ Proof.
   intros q q' _. unfold inject. destruct q; try discriminate.
   destruct (negb o && _); [discriminate|]. intros H. inversion H. reflexivity.
 Qed.
-Lemma lb_numeric_benign c q : pbenign (lb_numeric c q) = true.
+Lemma lb_numeric_benign wo c q : pbenign (lb_numeric wo c q) = true.
 Proof.
-  unfold lb_numeric. destruct (jget q _); [|reflexivity]. destruct (as_f64 j); [|reflexivity].
+  unfold lb_numeric. destruct (jget q _); [|reflexivity]. destruct (w_of_json wo j); [|reflexivity].
   destruct q; reflexivity.
 Qed.
-Lemma lb_numeric_keeps_shape c : keeps_shape (lb_numeric c).
+Lemma lb_numeric_keeps_shape wo c : keeps_shape (lb_numeric wo c).
 Proof.
-  intros q q' _. unfold lb_numeric. destruct (jget q _); [|discriminate]. destruct (as_f64 j); [|discriminate].
+  intros q q' _. unfold lb_numeric. destruct (jget q _); [|discriminate]. destruct (w_of_json wo j); [|discriminate].
   destruct q; try discriminate. intros H. inversion H. reflexivity.
 Qed.
 Lemma grid_search_benign q : pbenign (grid_search q) = true.
@@ -353,8 +355,8 @@ Proof.
     cbn [shape_ok]. rewrite <- E. clear. induction (combos _) as [|c r IH]; cbn; auto.
   - intros H. inversion H. subst. destruct q'; cbn in *; try discriminate. reflexivity.
 Qed.
-Lemma weight_estimate_total q : crashes (weight_estimate q) = false.
-Proof. unfold weight_estimate. destruct (jget q _); [|reflexivity]. destruct (as_f64 j); reflexivity. Qed.
+Lemma weight_estimate_total wo q : crashes (weight_estimate wo q) = false.
+Proof. unfold weight_estimate. destruct (jget q _); [|reflexivity]. destruct (w_of_json wo j); reflexivity. Qed.
 Lemma get_queries_total user : crashes (get_queries user) = false.
 Proof. destruct user; try reflexivity. cbn. destruct (oget m "queries") as [[]|]; reflexivity. Qed.
 
@@ -410,18 +412,23 @@ Lemma yens_k_from_query spur fuel : exists w,
 Proof. eexists. split; reflexivity. Qed.
 
 (* ------------------------------------------------------------------ the concrete plugins as a class *)
-Inductive concrete : plugin -> Prop :=
-| C_inject k v o : concrete (inject k v o)
-| C_lb_numeric c : concrete (lb_numeric c)
-| C_grid_search : concrete grid_search.
-Lemma concrete_benign p : concrete p -> forall q, pbenign (p q) = true.
+Inductive concrete (wo : wops) : plugin -> Prop :=
+| C_inject k v o : concrete wo (inject k v o)
+| C_lb_numeric c : concrete wo (lb_numeric wo c)
+| C_grid_search : concrete wo grid_search.
+Lemma concrete_benign wo p : concrete wo p -> forall q, pbenign (p q) = true.
 Proof. intros [k v o|c|] q; [apply inject_benign|apply lb_numeric_benign|apply grid_search_benign]. Qed.
-Lemma concrete_keeps_shape p : concrete p -> keeps_shape p.
+Lemma concrete_keeps_shape wo p : concrete wo p -> keeps_shape p.
 Proof. intros [k v o|c|]; [apply inject_keeps_shape|apply lb_numeric_keeps_shape|apply grid_search_keeps_shape]. Qed.
+
+(* an exact instance of the weight interface (integer weights) for the concrete examples *)
+Definition zw : wops :=
+  {| wt := Z; w_zero := 0%Z; w_one := 1%Z; w_add := Z.add; w_lt := Z.ltb;
+     w_of_json := fun j => match j with JInt z => Some z | _ => None end; w_to_json := JInt |}.
 
 (* a small concrete instance used for non-vacuity and for the K witness at pipeline level *)
 Definition ex_plugins : list plugin :=
-  [grid_search; inject "injected" (JBool true) true; lb_numeric (Some "w")].
+  [grid_search; inject "injected" (JBool true) true; lb_numeric zw (Some "w")].
 Definition ex_search : json -> res unit := fun q =>
   match jget q "origin_vertex" with Some (JInt _) => Ok tt | _ => Err "MissingExpectedQueryField" end.
 Definition ex_batch : list json :=
@@ -430,13 +437,13 @@ Definition ex_batch : list json :=
     JObj [("w", JInt 1)];
     JObj [("origin_vertex", JInt 3); ("w", JStr "heavy")];
     JObj [("origin_vertex", JInt 4); ("w", JInt 1); ("grid_search", JObj [("m", JArr [])])] ].
-Lemma ex_plugins_concrete : forall p, In p ex_plugins -> concrete p.
+Lemma ex_plugins_concrete : forall p, In p ex_plugins -> concrete zw p.
 Proof. intros p [<-|[<-|[<-|[]]]]; constructor. Qed.
 Lemma ex_search_total q : crashes (ex_search q) = false.
 Proof. unfold ex_search. destruct (jget q "origin_vertex") as [[]|]; reflexivity. Qed.
 (* 4 expansions of the first query + one error response for each of the other four *)
 Lemma ex_run_counts :
-  exists rs, run unit ex_plugins ex_search [] (fun j => Ok j) 2 3 true ex_batch = Ok rs /\ List.length rs = 8.
+  exists rs, run zw unit ex_plugins ex_search [] (fun j => Ok j) 2 3 true ex_batch = Ok rs /\ List.length rs = 8.
 Proof. eexists. split; [vm_compute; reflexivity|reflexivity]. Qed.
 
 Definition yens_as_search (first : list route) (fuel : nat) : json -> res unit := fun q =>
@@ -444,7 +451,7 @@ Definition yens_as_search (first : list route) (fuel : nat) : json -> res unit :
   | Ok _ => Ok tt | Err c => Err c | Panic w => Panic w | OutOfFuel => OutOfFuel
   end.
 Lemma pipeline_yens_panics : exists w,
-  run unit [] (yens_as_search [[0]] 8) [] (fun j => Ok j) 2 2 true
+  run zw unit [] (yens_as_search [[0]] 8) [] (fun j => Ok j) 2 2 true
       [JObj [("origin_vertex", JInt 0); ("destination_vertex", JInt 1)]] = Panic w.
 Proof. eexists. vm_compute. reflexivity. Qed.
 Lemma yens_as_search_diverges fuel q : jget q "k" = None -> yens_as_search [[0; 1]] fuel q = OutOfFuel.
@@ -452,18 +459,18 @@ Proof.
   intros Hk. unfold yens_as_search, search_entry, effective_k. rewrite Hk. cbn [bind yens_run Z.of_nat].
   induction fuel as [|f IH]; [reflexivity|]. cbn [yens_while]. cbn. exact IH.
 Qed.
-Lemma run_single_hang (s : json -> res unit) q : is_obj q = true -> jget q "query_weight_estimate" = None ->
-  s q = OutOfFuel -> run unit [] s [] (fun j => Ok j) 2 2 true [q] = OutOfFuel.
+Lemma run_single_hang wo (s : json -> res unit) q : is_obj q = true -> jget q "query_weight_estimate" = None ->
+  s q = OutOfFuel -> run wo unit [] s [] (fun j => Ok j) 2 2 true [q] = OutOfFuel.
 Proof.
   intros Ho Hw Hs. unfold run. cbn [List.length chunk_size Nat.eqb ceil_div Nat.add Nat.sub Nat.div Nat.divmod fst Nat.max par_chunks chunks_aux firstn skipn bind map seq_map].
   unfold input_stage, apply_input_plugins. cbn [apply_plugins json_array_flatten filter]. rewrite Ho.
   cbn [negb rev app par_join existsb is_hang orb first_panic all_ok bind concat lefts rights flat_map app filter].
   unfold weight_ok, weight_estimate. rewrite Hw. cbn [filter negb map app seq_map bind load_balance balance].
   unfold weight_estimate. rewrite Hw. cbn [min_bin repeat min_idx_from].
-  destruct (of_lt PrimFloat.zero PrimFloat.zero); cbn [bind upd app map]; unfold run_bin, run_single_query; cbn [seq_map];
+  destruct (w_lt wo (w_zero wo) (w_zero wo)); cbn [bind upd app map]; unfold run_bin, run_single_query; cbn [seq_map];
     rewrite Hs; reflexivity.
 Qed.
-Lemma pipeline_yens_diverges fuel :
-  run unit [] (yens_as_search [[0; 1]] fuel) [] (fun j => Ok j) 2 2 true
+Lemma pipeline_yens_diverges wo fuel :
+  run wo unit [] (yens_as_search [[0; 1]] fuel) [] (fun j => Ok j) 2 2 true
       [JObj [("origin_vertex", JInt 0); ("destination_vertex", JInt 2)]] = OutOfFuel.
 Proof. apply run_single_hang; try reflexivity. apply yens_as_search_diverges. reflexivity. Qed.
